@@ -12,7 +12,9 @@ PROP = "C19"
 LEAN_TARGETS = ["LoguruModel.Props.C19"]
 AUDIT_FILE = "LoguruModel/Audit/C19.lean"
 DRIVER = "Rotation"
-RULE = ("(limit S as int / float / Decimal / spelling, optional companion time condition, file encoding, "
+RULE = ("(limit S as int / float / Decimal / spelling, optional companion time condition, file encoding, the sink's "
+        "open() keyword `buffering` (default, 1, -1, 2, 16, 64, 4096, 2^20), line end of the records (newline, or none / "
+        "'|' as a callable format leaves them), through FileSink.write or through logger.add()/logger.info(), "
         "pre-existing size P, message sequence): messages are sized around the room left in the current file (exact "
         "fit, one byte over, larger than S, empty) with ASCII / 2- / 3- / 4-byte UTF-8 content; a real FileSink writes "
         "them into a scratch directory and the directory is judged by the size bound itself after every call; "
@@ -37,21 +39,26 @@ CONTENT = {
 PREFIX = "kmgtpezy"
 
 
-def gen_text(rng, seq, want_bytes, encoding, kinds):
-    """a message ending in a newline, tagged with its sequence number, of roughly `want_bytes` encoded bytes"""
+def gen_text(rng, seq, want_bytes, encoding, kinds, end="\n"):
+    """a message tagged with its sequence number, of roughly `want_bytes` encoded bytes, ending in `end`
+    (a newline as the default format produces, or whatever a callable format leaves: "|", nothing)"""
     tag = "<%d>" % seq
     body = ""
     pool = "".join(CONTENT[k] for k in kinds)
-    while len((tag + body + "\n").encode(encoding)) < want_bytes:
+    while len((tag + body + end).encode(encoding)) < want_bytes:
         body += rng.choice(pool)
-    text = tag + body + "\n"
+    text = tag + body + end
     # trim to hit the target exactly when possible
     while len(text.encode(encoding)) > want_bytes and body:
         body = body[:-1]
-        text = tag + body + "\n"
+        text = tag + body + end
     if len(text.encode(encoding)) < want_bytes and encoding != "utf-16-le":
-        text = tag + body + "a" * (want_bytes - len(text.encode(encoding))) + "\n"
+        text = tag + body + "a" * (want_bytes - len(text.encode(encoding))) + end
     return text
+
+
+BUFFERINGS = [None, None, None, 1, -1, -1, 2, 16, 64, 4096, 1 << 20]   # None = FileSink's own default (1)
+LINE_ENDS = ["\n", "\n", "\n", "\n", "|", "", ";\t"]
 
 
 def spell_size(rng, value, prefix_i, binary, bits):
@@ -103,8 +110,21 @@ def listing(d):
     return {n: os.stat(os.path.join(d, n)).st_size for n in os.listdir(d)}
 
 
-def run_sink_case(obj, ts0, pre, msgs, encoding, texts_bytes, S, P):
-    """like R.impl_sink, but looks at the directory after every call (direct oracle, first half)"""
+def over_limit(d, limit, blobs):
+    """first file in the directory that breaks the bound *as the disk shows it right now*: more than `limit`
+    bytes and not (a prefix of) one single message"""
+    for name, size in listing(d).items():
+        if size > limit:
+            with open(os.path.join(d, name), "rb") as fh:
+                data = fh.read()
+            if len(data) > limit and not any(b.startswith(data) for b in blobs):
+                return (name, len(data))
+    return None
+
+
+def run_sink_case(obj, ts0, pre, msgs, encoding, texts_bytes, S, P, buffering=None):
+    """like R.impl_sink, but looks at the directory after every call (direct oracle, first half).
+    The stream is NOT flushed by the harness: what the rotation test does not count must not pile up."""
     import loguru._file_sink as fs
     import shutil
     import tempfile
@@ -113,7 +133,8 @@ def run_sink_case(obj, ts0, pre, msgs, encoding, texts_bytes, S, P):
     clock = R.FrozenClock()
     old_dt = fs.datetime
     over = None
-    single = set(texts_bytes)
+    blobs = [t.encode(encoding) for _, _, t in msgs]
+    kw = {} if buffering is None else {"buffering": buffering}
     try:
         path = os.path.join(d, "app.log")
         if pre is not None:
@@ -123,7 +144,7 @@ def run_sink_case(obj, ts0, pre, msgs, encoding, texts_bytes, S, P):
             fs.datetime = clock.module
             try:
                 try:
-                    sink = fs.FileSink(path, rotation=obj, encoding=encoding)
+                    sink = fs.FileSink(path, rotation=obj, encoding=encoding, **kw)
                 except Exception as e:  # noqa
                     return ("err", R.canon_err(e)), None
                 try:
@@ -131,11 +152,10 @@ def run_sink_case(obj, ts0, pre, msgs, encoding, texts_bytes, S, P):
                         for i, (utc, off, text) in enumerate(msgs):
                             clock.now_us = utc
                             sink.write(R.make_message(text, utc, off))
-                            sink._file.flush()
                             if over is None:
-                                for name, size in listing(d).items():
-                                    if size > max(S, P) and size not in single:
-                                        over = (i, name, size)
+                                hit = over_limit(d, max(S, P), blobs)
+                                if hit:
+                                    over = (i,) + hit
                 except R.Hang:
                     return ("hang", 0), None
                 finally:
@@ -145,6 +165,53 @@ def run_sink_case(obj, ts0, pre, msgs, encoding, texts_bytes, S, P):
                         pass
             finally:
                 fs.datetime = old_dt
+        files = []
+        for name in os.listdir(d):
+            with open(os.path.join(d, name), "rb") as fh:
+                files.append((name, fh.read()))
+        return ("ok", files), over
+    finally:
+        shutil.rmtree(d, ignore_errors=True)
+
+
+def run_logger_case(obj, pre, bodies, end, encoding, S, P, buffering=None):
+    """the same through the public API: logger.add(path, format=…, rotation=…, buffering=…, encoding=…) and
+    logger.info(); `end` == "\n" uses the string format "{message}", anything else a callable format that
+    leaves the record without a line end.  Only size conditions (the clock is real here)."""
+    import shutil
+    import tempfile
+    from loguru._logger import Core, Logger
+    # a private logger with no other handler (same construction as loguru/__init__.py)
+    logger = Logger(core=Core(), exception=None, depth=0, record=False, lazy=False, colors=False, raw=False,
+                    capture=True, patchers=[], extra={})
+    d = tempfile.mkdtemp(prefix="verif-size-")
+    over = None
+    blobs = [(b + end).encode(encoding) for b in bodies]
+    kw = {} if buffering is None else {"buffering": buffering}
+    try:
+        path = os.path.join(d, "app.log")
+        if pre is not None:
+            with open(path, "wb") as fh:
+                fh.write(pre)
+        fmt = "{message}" if end == "\n" else (lambda record: "{message}" + end)
+        try:
+            hid = logger.add(path, format=fmt, rotation=obj, encoding=encoding, colorize=False, catch=False, **kw)
+        except Exception as e:  # noqa
+            return ("err", R.canon_err(e)), None
+        try:
+            with R.time_limit(20):
+                for i, b in enumerate(bodies):
+                    logger.info(b)
+                    if over is None:
+                        hit = over_limit(d, max(S, P), blobs)
+                        if hit:
+                            over = (i,) + hit
+        except R.Hang:
+            return ("hang", 0), None
+        except Exception as e:  # noqa
+            return ("raised", R.canon_err(e)), None
+        finally:
+            logger.remove(hid)
         files = []
         for name in os.listdir(d):
             with open(os.path.join(d, name), "rb") as fh:
@@ -175,19 +242,29 @@ def run(ctx):
     boost = 4 if getattr(ctx, "search_boost", False) else 1
     lines, expect = [], []
 
-    def sink_case(obj, token, S, P, encoding, texts, stamps, off, eff, ts, pure, rep_extra, key=None, how=""):
+    def sink_case(obj, token, S, P, encoding, texts, stamps, off, eff, ts, pure, rep_extra, key=None, how="",
+                  buffering=None, via="sink", end="\n"):
         pre = (b"x" * P) if P else None
         tb = [len(t.encode(encoding)) for t in texts]
-        got, over = run_sink_case(obj, ts, pre, [(u, off, t) for u, t in zip(stamps, texts)], encoding, tb, S, P)
+        if via == "logger":
+            got, over = run_logger_case(obj, pre, [t[:len(t) - len(end)] for t in texts], end, encoding, S, P, buffering)
+        else:
+            got, over = run_sink_case(obj, ts, pre, [(u, off, t) for u, t in zip(stamps, texts)], encoding, tb, S, P,
+                                      buffering)
         rep = dict({"stream": "sink", "token": token, "spelling": obj if isinstance(obj, str) else repr(obj),
                     "limit_floor": S, "pre": P, "encoding": encoding, "texts": texts, "stamps": stamps, "offset": off,
-                    "ctime": eff}, **rep_extra)
+                    "ctime": eff, "buffering": buffering, "via": via, "end": end}, **rep_extra)
+        ctx.stat("buffering:%s" % ("default" if buffering is None else buffering))
+        ctx.stat("line_end:" + ("newline" if end == "\n" else "none" if end == "" else "other"))
+        ctx.stat("via:" + via)
         if got[0] != "ok":
             ctx.violation("file sink with rotation %r: %s" % (rep["spelling"], got), dict(rep, observed=list(got)), key=key)
             return
         if over is not None:
-            ctx.violation("rotation %r, encoding %s: after message %d file %s has %d bytes > limit %d"
-                          % (rep["spelling"], encoding, over[0], over[1], over[2], S), dict(rep, observed=list(over)), key=key)
+            ctx.violation("rotation %r, encoding %s, buffering %s, via %s: after message %d file %s has %d bytes on disk "
+                          "> limit %d and is not a single message" % (rep["spelling"], encoding, buffering, via, over[0],
+                                                                     over[1], over[2], S),
+                          dict(rep, observed=list(over)), key=key)
         part = R.partition_of(got[1], texts, encoding, pre)
         if part is None:
             ctx.violation("rotation %r: log files do not decompose into the written messages" % rep["spelling"], rep, key=key)
@@ -199,8 +276,9 @@ def run(ctx):
                 ctx.violation("rotation %r: a file has %d bytes but its messages add up to %d"
                               % (rep["spelling"], size, init + sum(tb[i] for i in idx)), rep, key=key)
             if not (size <= max(S, init) or (len(idx) == 1 and init == 0)):
-                ctx.violation("rotation %r, encoding %s, limit %d: a file with messages %s holds %d bytes"
-                              % (rep["spelling"], encoding, S, idx, size), dict(rep, observed=[idx, size]), key=key)
+                ctx.violation("rotation %r, encoding %s, buffering %s, via %s, limit %d: a file with messages %s holds "
+                              "%d bytes" % (rep["spelling"], encoding, buffering, via, S, idx, size),
+                              dict(rep, observed=[idx, size]), key=key)
             if idx:
                 appended += len(idx) - 1
         # minimality (pure size conditions): message i starts a new file only if it did not fit
@@ -232,7 +310,8 @@ def run(ctx):
         ts, eff = R.ctime_pair(0)
         ctx.stat("corpus")
         sink_case(R.object_of_token(c["token"]), c["token"], c["limit_floor"], c.get("pre", 0), c.get("encoding", "utf8"),
-                  texts, stamps, 0, eff, ts, True, {"corpus": name}, key=c.get("key"), how="corpus")
+                  texts, stamps, 0, eff, ts, True, {"corpus": name}, key=c.get("key"), how="corpus",
+                  buffering=c.get("buffering"), via=c.get("via", "sink"), end=c.get("end", "\n"))
 
     # ---- stream 1: real FileSinks around the limit
     n1 = ctx.n(2500, 30000) * boost
@@ -263,7 +342,10 @@ def run(ctx):
             if rng.chance(30):
                 obj = tuple(obj)
             how += "+time"
-        nmsg = rng.range(2, 9)
+        buffering = rng.choice(BUFFERINGS)
+        end = rng.choice(LINE_ENDS)
+        via = "logger" if pure and rng.chance(20) else "sink"
+        nmsg = rng.range(2, 9) if rng.chance(80) else rng.range(9, 16)
         texts, stamps = [], []
         room = S - P
         t = eff
@@ -281,13 +363,14 @@ def run(ctx):
                 want = rng.range(5, max(6, S // 2 + 3))
             if encoding == "utf-16-le":
                 want += want % 2
-            text = gen_text(rng, k, want, encoding, kinds)
+            text = gen_text(rng, k, want, encoding, kinds, end)
             b = len(text.encode(encoding))
             texts.append(text)
             room = room - b if room - b >= 0 and room >= 0 else S - b
             t += rng.choice([0, 1, 1000, 60 * 10**6, R.HOUR, R.HOUR * 7, R.DAY]) if not pure else k
             stamps.append(t)
-        sink_case(obj, token, S, P, encoding, texts, stamps, off, eff, ts, pure, {}, how=how)
+        sink_case(obj, token, S, P, encoding, texts, stamps, off, eff, ts, pure, {}, how=how, buffering=buffering,
+                  via=via, end=end)
 
     # ---- stream 2: spellings of sizes denote the documented quantities (value level)
     from loguru import _string_parsers as sp
@@ -385,8 +468,13 @@ def replay(ctx, rep):
         obj = R.object_of_token(r["token"])
         texts, enc_, S, P = r["texts"], r["encoding"], r["limit_floor"], r["pre"]
         tb = [len(t.encode(enc_)) for t in texts]
-        got, over = run_sink_case(obj, R.ctime_pair(r["ctime"])[0], (b"x" * P) if P else None,
-                                  [(u, r["offset"], t) for u, t in zip(r["stamps"], texts)], enc_, tb, S, P)
+        buffering, via, end = r.get("buffering"), r.get("via", "sink"), r.get("end", "\n")
+        if via == "logger":
+            got, over = run_logger_case(obj, (b"x" * P) if P else None, [t[:len(t) - len(end)] for t in texts], end, enc_,
+                                        S, P, buffering)
+        else:
+            got, over = run_sink_case(obj, R.ctime_pair(r["ctime"])[0], (b"x" * P) if P else None,
+                                      [(u, r["offset"], t) for u, t in zip(r["stamps"], texts)], enc_, tb, S, P, buffering)
         bad = got[0] != "ok" or over is not None
         sizes = None
         if got[0] == "ok":
@@ -411,7 +499,8 @@ def replay(ctx, rep):
                             prev = [s for i2, s, f2 in part if i2 and i2[-1] == k - 1]
                             if prev and prev[0] + tb[k] <= S:
                                 bad = True
-        print("rotation=%r encoding=%s limit=%d pre=%d" % (r.get("spelling"), enc_, S, P))
+        print("rotation=%r encoding=%s limit=%d pre=%d buffering=%s via=%s line end=%r"
+              % (r.get("spelling"), enc_, S, P, buffering, via, end))
         print("files (messages, bytes):", sizes if sizes is not None else got)
         print("first over-limit file seen during the run:", over)
     print("REPRODUCED" if bad else "not reproduced")
